@@ -198,6 +198,10 @@ class CallMixin:
             elif isinstance(v, tuple) and v and v[0] == "$kwargs":
                 o = HeapObj("inst", cls="$dict", fields=dict(v[1]))
                 env[k] = st.alloc(o)
+        unit_c = self.contract_stack[-1] if self.contract_stack else None
+        if unit_c is not None and fi.key in unit_c.opaque:
+            self.ctx.stub_uses.add("opaque:" + fi.key)
+            return unit_c.opaque[fi.key](self, st, env, node)
         c = self.contracts.get(fi.key)
         if c is not None and c.result_kind is not None and not self.force_inline(fi):
             return self.apply_contract(st, fi, c, env, node)
@@ -253,13 +257,11 @@ class CallMixin:
             for label, f in fn(A):
                 self.ctx.oblige(f"{self.unit_name()}/call:{fi.qualname}/requires:{label}/L{self.line(node)}",
                                 st, f, "call-pre", self.line(node))
-        if c.modifies:
-            raise Unsupported("call-site use of a contract with a modifies clause")
         res = c.result_kind.fresh(self.ctx, "r_" + fi.node.name)
         for f in c.result_kind.wf(res):
             st.assume(f)
         outs = []
-        # exceptional exits
+        # exceptional exits (decided on the pre-state)
         for exc, when in c._raises.items():
             cond = when(A)
             if self.feasible(st, cond):
@@ -267,10 +269,34 @@ class CallMixin:
                 s2.assume(cond)
                 outs.append((s2, Exc(exc, self.line(node))))
             st.assume(z3.Not(cond))
+        # havoc the declared frame, keep a snapshot for old-state references
+        if c.modifies:
+            pre = st.fork()
+            A = View(pre, {k: (pre.env.get(k) if False else v) for k, v in args.items()})
+            for path in c.modifies:
+                parts = path.split(".")
+                cur = args[parts[0]]
+                for fld in parts[1:]:
+                    cur = st.heap[cur.oid].fields[fld]
+                if not ops.is_cell(st, cur):
+                    raise Unsupported(f"modifies path {path} of {fi.key} is not a container cell at this call site")
+                o = st.heap[cur.oid]
+                kind = o.val.kind
+                if kind is None:
+                    raise Unsupported(f"cannot havoc {path}: kind unknown")
+                new = kind.fresh(self.ctx, "post_" + parts[-1])
+                if isinstance(o.val, VMap):
+                    new.default = o.val.default
+                for f in kind.wf(new):
+                    st.assume(f)
+                o.val = new
+
         class _R:
             result = res
-            new = A
+            raw_result = res
+            new = View(st, args)
             log = ()
+        _R.st = st
         for fn, _ in c._ensures:
             for label, f in fn(A, _R):
                 st.assume(f)
@@ -282,6 +308,10 @@ class CallMixin:
 
     # ------------------------------------------------------------ classes
     def construct(self, st, clsname, pos, kw, node):
+        unit_c = self.contract_stack[-1] if self.contract_stack else None
+        if unit_c is not None and ("class:" + clsname) in unit_c.opaque:
+            self.ctx.stub_uses.add("opaque:class:" + clsname)
+            return unit_c.opaque["class:" + clsname](self, st, pos, kw, node)
         h = self.stubs.get("class:" + clsname)
         if h is not None:
             return h(self, st, pos, kw, node, None)
@@ -386,7 +416,10 @@ class CallMixin:
                     return [(st, VNone())]
                 o = ops.coerce(st, o, v.kind)
                 x = z3.Const("x!du", v.elem.sort())
-                setcell(st, VSet(v.elem, z3.Lambda([x], z3.And(v.t[x], z3.Not(o.t[x])))))
+                nv = VSet(v.elem, z3.Lambda([x], z3.And(v.t[x], z3.Not(o.t[x]))))
+                for fct in bigop.subset_facts(nv.t, v.t):
+                    st.assume(fct)
+                setcell(st, nv)
                 return [(st, VNone())]
             if meth == "pop":
                 if isinstance(v, VEmptySet):
